@@ -62,8 +62,19 @@ fn multi_scene(r: &mut Rng, cover: &mut crate::Cover) -> Scene {
     let npc = 2 + r.usize(3);
     let nblob = 2 + r.usize(3);
     let mut items: Vec<Item> = Vec::new();
+    // in a third of the files all point clouds carry the same GUID (nothing forbids that): whatever a reader
+    // remembers per point cloud must not be keyed by a value two clouds can share
+    let shared_guid = if r.chance(1, 3) {
+        cover.hit("scene:pointclouds-share-guid");
+        Some(format!("{{shared-{}}}", r.usize(1000)))
+    } else {
+        None
+    };
     for _ in 0..npc {
         let mut pc = gen_pc(r, &k, &[], cover);
+        if let Some(g) = &shared_guid {
+            pc.guid = g.clone();
+        }
         pc.meta = PcMeta::default();
         let n = *r.pick(&[3usize, 10, 60, 150]);
         pc.points = (0..n).map(|_| gen_point(r, &pc.prototype, false)).collect();
